@@ -23,7 +23,7 @@ TASK: for EACH property above produce THREE independent, realistic, BEHAVIOUR-PR
   (2) a REPRESENTATION change behind the same public surface: a module-level constant or table moved to a class attribute (or the other way round) or rebuilt in another equivalent form (tuple vs list vs frozenset where order/mutability is not observable, a dict literal built by a comprehension, a regex pre-compiled, a constant expressed differently, a dataclass gaining a private cached field), a private container type changed where callers cannot observe it;
   (3) an ADDITIVE change that leaves existing behaviour alone: a new optional keyword argument whose default reproduces the old behaviour, a new read-only statistics/introspection method or field, extra logging through the `logging` module at DEBUG level, type hints and docstrings, a new `__repr__`.
 Each change, taken alone, must (a) import and pass the full test suite (run it!), (b) keep the property true, and — stronger — (c) preserve the observable behaviour of every PUBLIC function, method and attribute of the touched classes on ALL inputs and histories: same return values (including the exact text of result/error messages and the type of raised exceptions), same exceptions, same order and arguments of every user-callback invocation, same values of public attributes after every call, same locking behaviour (which locks are taken in which order around which accesses), same console output when not silent. Do not fix bugs, do not change defaults, do not change rounding. Keep each patch between roughly 10 and 80 changed lines, and make it a REAL restructuring, not whitespace or comments only.
-For each change also write demo.py: a standalone program that exercises the property's clauses on your copy over a reasonable spread of inputs/histories (including the unusual ones the QUANTIFIED OVER text mentions) and exits 0 if the property held, 1 otherwise; it must exit 0 both WITHOUT and WITH your change. Additionally compare old and new behaviour differentially where you can (e.g. run the same random histories against `git stash`ed original code in a subprocess and compare printed transcripts) and say in meta.json what you compared.
+For each change also write demo.py: a standalone program that exercises the property's clauses on your copy over a reasonable spread of inputs/histories (including the unusual ones the QUANTIFIED OVER text mentions) and exits 0 if the property held, 1 otherwise; it must exit 0 both WITHOUT and WITH your change. Additionally compare old and new behaviour differentially where you can (e.g. run the same random histories against a pristine copy of the original code — `git archive HEAD | tar -x -C <dir>`, NEVER `git stash`, which is shared between worktrees — in a subprocess and compare printed transcripts) and say in meta.json what you compared.
 
 DELIVERABLE, for each property id P and i = 1, 2, 3 (kind (i)), in /tmp/seed_out/P/h<i>/ :
   - patch.diff   (`git -C {wt} diff` of that change alone, relative to the unmodified worktree HEAD; must apply with `git apply` to a clean checkout)
